@@ -734,9 +734,22 @@ def leg_bundled_history(run, dump, rng, extra_names, shards):
     view = BundledView(dump)
     defs, ask, info = further_load(view, rng)
     names = list(dict.fromkeys(ask + extra_names))
-    rs = run_bundled_history(defs, names)
+    # the same load also carries a definition the loader refuses (MC_Names.Refuse): a substance whose last property does not
+    # evaluate and whose property, input and output names are exactly defined units that are asked about afterwards
+    rn = [rng.choice([n for n in ("meter", "second", "gram", "foot", "inch", "hour") if n in view.exact] or view.plain_units)]
+    rn += rng.sample([n for n in view.plain_units if n not in rn], 2)
+    names = list(dict.fromkeys(names + rn + [rng.choice([p for p, _ in view.pres if _plain.match(p)]) + n for n in rn]))
+    refused = "zq_refused {\n %s %s 1 / %s 2\n zq_bad const zq_b 1 zq_no_such_unit\n}\n" % tuple(rn)
+    info["refused_definition_names"] = rn
+    rs = run_bundled_history(defs + refused, names)
     t1 = time.time()
-    case0 = {"engine": "bundled-history", "defs": defs}
+    case0 = {"engine": "bundled-history", "defs": defs + refused}
+    if "stages" in rs and len(rs["stages"]) > 1:
+        errs = rs["stages"][1]["errors"]
+        if not any("zq_refused" in e for e in errs):
+            raise vlib.ToolError("the refused definition of the further load was not refused: %s" % errs)
+        if all("zq_" in ln for e in errs for ln in e.splitlines()[1:] or [e]):
+            rs["stages"][1]["errors"] = []
     if "crash" in rs:
         run.violation(dict(case0, stage=None, name=None, what="crash"),
                       "every name resolves to an admissible denotation or to nothing", rs, "bundled-history")
